@@ -384,7 +384,145 @@ impl Leg for Python {
     }
 }
 
+// ---------------------------------------------------------------------------------------------
+// leg 5: giant records (tens of thousands to millions of bases, near-homopolymers and repeats): counts
+// beyond 2^16 / 2^20 / 2^24, frequencies within 5e-7 of 0 and 1, block-wise fast paths
+
+#[derive(Clone, Debug, Serialize, Deserialize)]
+pub struct GiantCase {
+    pub giant: gen::Giant,
+    pub small: Vec<Rec>,
+    pub k: usize,
+    pub norm: bool,
+    pub writer: Writer,
+    pub delim: String,
+    pub threads: usize,
+    pub header: bool,
+    /// position of the giant record among the small ones
+    pub at: u16,
+}
+
+fn giant_recs(c: &GiantCase) -> Vec<Rec> {
+    let mut recs = c.small.clone();
+    let at = crate::util::idx16(c.at, recs.len() + 1);
+    recs.insert(at, Rec { id: "giant".into(), desc: None, seq: Bytes(c.giant.expand()) });
+    recs
+}
+
+fn classify_giant(v: &mut Verdict, seq: &[u8], rt: &RankTable) {
+    let (counts, total) = model::oligo_counts(seq, rt);
+    let top = counts.iter().copied().max().unwrap_or(0);
+    v.nontrivial = total > 0;
+    v.class_if(top > (1 << 16), "count>2^16");
+    v.class_if(top > (1 << 24), "count>2^24");
+    v.class_if(total > 0 && top < total && (top as f64 / total as f64) > 0.9999995, "frequency-rounds-up-to-1");
+    v.class_if(counts.iter().any(|&c| c > 0 && (c as f64 / total as f64) < 5e-7), "frequency-rounds-down-to-0");
+}
+
+pub fn check_giant_file(c: &GiantCase) -> Verdict {
+    let mut v = Verdict::new();
+    let rt = rank_table(c.k);
+    let recs = giant_recs(c);
+    v.class(c.giant.label());
+    v.class(format!("k={}", c.k));
+    v.class(format!("giant-{:?}-{}", c.writer, if c.norm { "norm" } else { "counts" }));
+    let g = recs.iter().find(|r| r.id == "giant").unwrap();
+    classify_giant(&mut v, &g.seq, &rt);
+    // the giant record is followed by its reverse complement only (the other variants are leg 2's business)
+    let mut all = Vec::new();
+    for r in &recs {
+        all.push(r.clone());
+        if r.id == "giant" {
+            all.push(Rec { id: "giant_rc".into(), desc: None, seq: Bytes(model::revcomp_text(&r.seq)) });
+        }
+    }
+    let dir = crate::scratch_dir();
+    let input = io::write_input(dir.path(), "in", &all, &Container::plain_fasta());
+    let out = dir.path().join("out.txt");
+    let cfg = OligoCfg { k: c.k, threads: c.threads, memory: 4 << 30, writer: c.writer, norm: c.norm, header: c.header, delim: c.delim.clone() };
+    let r = oligo_exec::exec(&io::path_str(&input), &io::path_str(&out), &cfg, &Sched::Free);
+    match r.result {
+        Err(p) => {
+            v.fail(crate::engine::panic_sig(&p), format!("vectorise panicked: {}", p));
+            return v;
+        }
+        Ok(Err(e)) => {
+            v.fail("vectorise-error", format!("vectorise returned Err({})", e));
+            return v;
+        }
+        Ok(Ok(())) => {}
+    }
+    let data = r.output.unwrap_or_default();
+    let seqs: Vec<&[u8]> = all.iter().map(|r| &r.seq.0[..]).collect();
+    if let Err((s, m)) = oligo_exec::check_rows(&data, &seqs, &rt, c.norm, c.header, &c.delim) {
+        v.fail(s, m);
+    }
+    v
+}
+
+fn giant_strategy(tier: Tier, python: bool) -> BoxedStrategy<GiantCase> {
+    let k = prop_oneof![3 => Just(1usize), 2 => 2usize..=4, 1 => 5usize..=8];
+    let hi = tier.pick(3_400_000, 17_500_000);
+    (k, prop::bool::weighted(0.7), any::<bool>(), any::<bool>(), prop::sample::select(vec![" ", ",", "\t"]), gen::threads_strategy(), any::<u16>())
+        .prop_flat_map(move |(k, norm, mmap, header, delim, threads, at)| {
+            let p = RecParams { max_records: 3, scale: k, max_len: 100, degenerate_w: 1, bounds: [k, 0, 0], nuc_only: false };
+            let writer = if mmap && norm { Writer::Mmap } else { Writer::Batch };
+            let lo = if python { 900_000 } else { 60_000 };
+            (prop_oneof![2 => gen::giant(lo, hi, b"ACGTN".to_vec()), 1 => gen::giant_near_one(hi.min(3_400_000))], gen::records(p)).prop_map(move |(giant, small)| GiantCase { giant, small, k, norm, writer, delim: delim.to_string(), threads, header, at })
+        })
+        .boxed()
+}
+
+pub struct GiantFiles;
+impl Leg for GiantFiles {
+    type Case = GiantCase;
+    const NAME: &'static str = "giant-records";
+    fn strategy(tier: Tier) -> BoxedStrategy<GiantCase> {
+        giant_strategy(tier, false)
+    }
+    fn check(c: &GiantCase) -> Verdict {
+        check_giant_file(c)
+    }
+}
+
+/// the same giant sequences through pykmertools.OligoComputer.vectorise_one (expanded inside the worker)
+pub struct GiantPython;
+impl Leg for GiantPython {
+    type Case = GiantCase;
+    const NAME: &'static str = "giant-python";
+    fn strategy(tier: Tier) -> BoxedStrategy<GiantCase> {
+        giant_strategy(tier, true)
+    }
+    fn check(c: &GiantCase) -> Verdict {
+        let mut v = Verdict::new();
+        let rt = rank_table(c.k);
+        let seq = c.giant.expand();
+        v.class(c.giant.label());
+        v.class("python-giant");
+        classify_giant(&mut v, &seq, &rt);
+        let tol = if c.norm { 1e-12 } else { 0.0 };
+        match crate::pyworker::ask(&serde_json::json!({"op": "oligo", "k": c.k, "norm": c.norm, "giant": c.giant.to_json()})) {
+            Err(e) => crate::pyworker::record_error(&mut v, e),
+            Ok(r) => match r["ok"].as_array() {
+                None => v.fail("python-giant-answer", format!("python answered {}", crate::util::trunc(&r.to_string(), 300))),
+                Some(a) => {
+                    let row: Vec<f64> = a.iter().map(|x| x.as_f64().unwrap_or(f64::NAN)).collect();
+                    if let Err((s, m)) = check_vector(&row, &seq, &rt, c.norm, tol) {
+                        v.fail(format!("python-{}", s), format!("pykmertools.OligoComputer({}).vectorise_one on {} bases: {}", c.k, seq.len(), m));
+                    }
+                }
+            },
+        }
+        v
+    }
+}
+
 pub fn run(ctx: &mut Ctx) {
+    let n = ctx.share(ctx.tier.pick(128, 3_200));
+    ctx.run_leg::<GiantFiles>(n, true, 12);
+    let n = ctx.share(ctx.tier.pick(48, 1_600));
+    ctx.run_leg::<GiantPython>(n, false, 12);
+
     let n = ctx.share(ctx.tier.pick(6_000, 100_000));
     ctx.run_leg::<Python>(n, false, 500);
     let n = ctx.share(ctx.tier.pick(200_000, 3_000_000));
@@ -403,6 +541,8 @@ pub fn replay(leg: &str, case: &serde_json::Value) -> Option<Result<Verdict, Str
         "file-api" => Some(crate::engine::replay_leg::<Files>(case)),
         "cli" => Some(crate::engine::replay_leg::<Cli>(case)),
         "python" => Some(crate::engine::replay_leg::<Python>(case)),
+        "giant-records" => Some(crate::engine::replay_leg::<GiantFiles>(case)),
+        "giant-python" => Some(crate::engine::replay_leg::<GiantPython>(case)),
         _ => None,
     }
 }
